@@ -104,14 +104,19 @@ type unit struct {
 
 // Conn is one fake connection (client side is what mosdns sees).
 type Conn struct {
-	ID     int
-	Stream bool // true: byte stream (Read may return partial units); false: datagrams
-	base   time.Time
-	seq    *atomic.Int64
+	ID      int
+	Created int64 // value of the shared event counter when the conn was created
+	Stream  bool  // true: byte stream (Read may return partial units); false: datagrams
+	base    time.Time
+	seq     *atomic.Int64
 
 	// OnWrite is called for every client Write, outside the conn's lock, before
 	// Write returns. A non-nil error is returned to the client as the write error.
 	OnWrite func(c *Conn, b []byte) error
+	// OnWriteFail is called (outside the lock) when a client Write fails because
+	// of an injected write fault, an expired write deadline, or because the
+	// connection is already closed: the bytes never reached the adversary.
+	OnWriteFail func(c *Conn, b []byte, err error)
 	// OnRead is called (outside the lock) after the client's Read consumed injected data.
 	OnRead func(c *Conn, injectID int64, n int)
 	// OnClose is called once on the first client Close.
@@ -127,6 +132,7 @@ type Conn struct {
 	rerr         error // returned by Read once rq is drained
 	closed       bool
 	closeN       int
+	closedSeq    int64
 	rdl, wdl     deadline
 	nextInj      int64
 	consumed     map[int64]bool // fully consumed injection ids
@@ -148,7 +154,7 @@ func New(id int, stream bool, base time.Time, seq *atomic.Int64) *Conn {
 		seq = new(atomic.Int64)
 	}
 	return &Conn{
-		ID: id, Stream: stream, base: base, seq: seq,
+		ID: id, Stream: stream, base: base, seq: seq, Created: seq.Add(1),
 		changed:    make(chan struct{}),
 		rdl:        makeDeadline(),
 		wdl:        makeDeadline(),
@@ -236,11 +242,19 @@ func (c *Conn) Read(p []byte) (int, error) {
 func (c *Conn) Write(p []byte) (int, error) {
 	c.mu.Lock()
 	if c.closed {
+		wf := c.OnWriteFail
 		c.mu.Unlock()
+		if wf != nil {
+			wf(c, append([]byte(nil), p...), io.ErrClosedPipe)
+		}
 		return 0, io.ErrClosedPipe
 	}
 	if isClosed(c.wdl.wait()) {
+		wf := c.OnWriteFail
 		c.mu.Unlock()
+		if wf != nil {
+			wf(c, append([]byte(nil), p...), ErrTimeout)
+		}
 		return 0, ErrTimeout
 	}
 	c.writeN++
@@ -255,8 +269,12 @@ func (c *Conn) Write(p []byte) (int, error) {
 	}
 	c.writes = append(c.writes, rec)
 	cb := c.OnWrite
+	wf := c.OnWriteFail
 	c.mu.Unlock()
 	if ferr != nil {
+		if wf != nil {
+			wf(c, append([]byte(nil), p...), ferr)
+		}
 		return 0, ferr
 	}
 	if cb != nil {
@@ -272,6 +290,9 @@ func (c *Conn) Close() error {
 	c.closeN++
 	first := !c.closed
 	c.closed = true
+	if first {
+		c.closedSeq = c.seq.Add(1)
+	}
 	c.broadcastLocked()
 	cb := c.OnClose
 	c.mu.Unlock()
@@ -444,6 +465,9 @@ func (c *Conn) WaitClosed(timeout time.Duration) bool {
 	}
 }
 
+// ClosedSeq returns the shared event counter value at the first Close (0 if open).
+func (c *Conn) ClosedSeq() int64 { c.mu.Lock(); defer c.mu.Unlock(); return c.closedSeq }
+
 // IsClosed reports whether the client closed the connection.
 func (c *Conn) IsClosed() bool { c.mu.Lock(); defer c.mu.Unlock(); return c.closed }
 
@@ -485,9 +509,14 @@ type Net struct {
 func NewNet() *Net { return &Net{Base: time.Now()} }
 
 // NewConn creates and registers a connection.
-func (n *Net) NewConn(stream bool) *Conn {
+func (n *Net) NewConn(stream bool) *Conn { return n.NewConnUser(stream, nil) }
+
+// NewConnUser creates and registers a connection with its User field set
+// before the connection becomes visible through Conns().
+func (n *Net) NewConnUser(stream bool, user any) *Conn {
 	n.mu.Lock()
 	c := New(len(n.conns)+1, stream, n.Base, &n.Seq)
+	c.User = user
 	n.conns = append(n.conns, c)
 	n.mu.Unlock()
 	return c
